@@ -7,7 +7,7 @@ from parglare.exceptions import SRConflicts, RRConflicts, DisambiguationError
 
 import gen
 from pcommon import *
-from enc import ForestDump, forest_alt_keys, oracle_alt_keys
+from enc import ForestDump, forest_alt_keys, oracle_alt_keys, glr_alt_set, parse_glr_reply
 
 MANIFEST_ENTRY = {
     "category": "proof",
@@ -123,6 +123,7 @@ def run_unit(u):
                 continue
             b = Batch()
             b.add("grammar", enc_grammar(num))
+            b.add("table", enc_table(num, gp.table))
             checks = []
             for text in inputs:
                 case = {"grammar": gtxt, "parser": "GLR", "lexical_disambiguation": lexdis, "input": text,
@@ -132,8 +133,10 @@ def run_unit(u):
                         f = gp.parse(text)
                         d = ForestDump(num, f.result)
                     impl = ("forest", d)
+                    impl_glr = glr_alt_set(num, f)
                 except parglare.SyntaxError as e:
                     impl = ("syntax", None)
+                    impl_glr = "syntax"
                 except BudgetExceeded:
                     continue
                 except Exception as e:
@@ -145,11 +148,24 @@ def run_unit(u):
                 qp = b.add("prefix", CHART_FUEL)
                 qs = b.add("sppf", CHART_FUEL, 0)
                 qf = b.add("sppf", CHART_FUEL, 1)
-                checks.append((case, impl, qp, qs, qf, skip_table(gp, text)))
+                checks.append((case, impl, qp, qs, qf, skip_table(gp, text),
+                               b.add("glr", 4000, 0, 1 if lexdis else 0), impl_glr))
             out = b.run()
             st["traces"] += len(checks)
-            for case, impl, qp, qs, qf, skip in checks:
+            for case, impl, qp, qs, qf, skip, qg, impl_glr in checks:
                 lexdis_on = case["lexical_disambiguation"]
+                # the GLR driver model with consume_input off: acceptance and the exact set of packed alternatives
+                mg = parse_glr_reply(out[qg])
+                if isinstance(mg, str) and mg in ("ordersens", "fuel"):
+                    bump(st, "glr_model_" + mg)
+                    model_agrees = True
+                else:
+                    st["glr_model_compared"] = st.get("glr_model_compared", 0) + 1
+                    model_agrees = (mg == impl_glr)
+                    if not model_agrees:
+                        res["disagreements"].append({"case": case, "what": "GLR driver model differs from GLRParser",
+                                                     "impl": (impl_glr if isinstance(impl_glr, str) else "forest of %d alternatives" % len(impl_glr)),
+                                                     "model": (mg if isinstance(mg, str) else "forest of %d alternatives" % len(mg))})
                 full = oracle_alt_keys(num, skip, [int(x) for x in out[qf].split()[1:]]) \
                     if out[qf].startswith("sppf") and out[qf] != "sppf fuel" else set()
                 if impl[0] == "syntax":
@@ -166,7 +182,7 @@ def run_unit(u):
                         elif spec.exhaustive:
                             v["fingerprint"] = h16(["F-GLR-1", gtxt, "prefix", case["lexical_disambiguation"],
                                                     strip_layout(case["input"])])
-                        elif "nullable" in case["features"]:
+                        elif "nullable" in case["features"] and model_agrees:
                             v["attribution"] = "glr-nullable-loss"
                         res["violations"].append(v)
                     continue
@@ -199,7 +215,7 @@ def run_unit(u):
                     if spec.exhaustive:
                         v["fingerprint"] = h16(["F-GLR-2", gtxt, "prefix", case["lexical_disambiguation"],
                                                 strip_layout(case["input"]), canon_keys(missing, case["input"])])
-                    elif "nullable" in case["features"]:
+                    elif "nullable" in case["features"] and model_agrees:
                         v["attribution"] = "glr-nullable-loss"
                     res["violations"].append(v)
                 if extra:
